@@ -275,7 +275,12 @@ CLAIMS["C06"] = {
             "the broker model answers a request at most once, to the requester, under its kind and serial, and emits no other serial "
             "reply: all 35 handlers, connection clean-up, deferred-work loop) and assumes only that a client does not reuse an open "
             "serial (SerialMap::insert; checked on every trace line of the real client). "
-            "The composed statement for the serial-less messages and the replies with a second condition is NOT a theorem: it is "
+            "Bus listeners on the same composed system: whatever the broker queues for a client about its listeners (the four replies, "
+            "tagged created-events, the end-of-current marker) is accepted when the client gets to it, in every interleaving "
+            "(listener_messages_never_refused; invariant between the broker's listener table and the client's listener map after the "
+            "messages on their way, exact characterisations of the four listener handlers, 'a removed or dead connection never comes "
+            "back' and framing for all other handlers, clean-up and the work loop). "
+            "The composed statement for channel messages, claim replies and NotSupported is NOT a theorem: it is "
             "tied by runs of real clients against a real broker under PRNG-chosen schedules on FIFO sizes 1..16 and unbounded, whose "
             "transport traces are replayed through the model, with implementation-only oracles for panics, unexpected-message stops, "
             "completion at quiescence (lost wake-ups, deadlock), call-result consistency and an idle broker stopping.",
